@@ -181,6 +181,9 @@ def permute_systems(
     if input_mat_dims[0] != prod_dim_r or (not row_only and input_mat_dims[1] != prod_dim_c):
         raise ValueError("InvalidDim: The dimensions specified in DIM do not agree with the size of X.")
     if is_vec:
+        # Sparse vectors (e.g. the 1-by-1 sparse identity) cannot be indexed below; work on the dense array.
+        if sparse.issparse(input_mat):
+            input_mat = input_mat.toarray()
         # If `input_mat` is a 1-by-X row vector, ensure we "flatten it" appropriately:
         if input_mat.shape[0] == 1:
             input_mat = input_mat[0]
